@@ -47,11 +47,7 @@ impl RunEnvironment {
 //@sub <<<let raw = &raw[1..];>>> ==> <<<let ghost image = raw@;
         let raw = verif_tail(raw);>>>
 //@sub <<<mem[orig..orig + raw.len()].clone_from_slice(&raw);>>> ==> <<<verif_copy_into(&mut mem, orig, orig + raw.len(), raw);>>>
-        requires
-            raw@.len() <= isize::MAX,   // slice type invariant (allocation size limit)
-        ensures
-            load_ok(raw@),
-            r matches Ok(env) && mstate_eq(view(env.state), load_spec(raw@)) && env.debugger is None,
+//@contract RunEnvironment_from_raw.c
 //@end
 }
 
